@@ -145,27 +145,38 @@ PLANS['C01'] = Plan(
     technique='deductive per-function contracts (own VC generator + z3) for the per-peak links; bounded run-time contract on every record and candidate',
 )
 PLANS['C02'] = Plan(
-    'C02', [OMP + 'trim', OMP + 'getPositionsWithSiteIds'], 'other',
+    'C02', [OMP + 'trim', OMP + 'getPositionsWithSiteIds', AR + 'create'], 'other',
     "Deductive links: OpticalMap.trim (first label at 0, distances kept, length = last-first+1, id kept) and getPositionsWithSiteIds (label numbers refer to the "
-    "whole molecule via shift; reverse strand mirrors about length-1, i.e. measures from the last label of a trimmed query). BOUNDED: every record of every "
+    "whole molecule via shift; reverse strand mirrors about length-1, i.e. measures from the last label of a trimmed query); AlignmentResultRow.create derives "
+    "RefStart/RefEnd as the smallest/largest reference coordinate of any pair and QryStart/QryEnd as the query coordinates of those two pairs, swapped on the "
+    "reverse strand, and passes ids/lengths/strand through. BOUNDED: every record of every "
     "file of the real program is re-derived from the CMAP *text* with independent parsers (ids, lengths, start/end coordinates per orientation, entry ids, "
     "second-pass records numbered in whole-query labels).",
     bounded=_lazy('bcheck.c02', 'bounded'), replay=_lazy('bcheck.c02', 'replay'),
     technique='deductive contracts for trimming and label numbering; bounded re-derivation of every record field from the input text',
 )
 PLANS['C04'] = Plan(
-    'C04', [SEG + 'AlignmentSegment.create', SF + '_AlignmentSegmentBuilder.getSegments', AE + '__getAlignedPairs'], 'other',
-    "Deductive links: a candidate's offset is query position - (reference position - seed) and within maxDistance (__getAlignedPairs), a segment's score is "
-    "the sum of its members' scores (AlignmentSegment.create; every trim goes through it), builder segments are contiguous runs of the scored list. BOUNDED: "
+    'C04', [SEG + 'AlignmentSegment.create', SF + '_AlignmentSegmentBuilder.getSegments', AE + '__getAlignedPairs', AP + 'getScoredPosition',
+            'src/alignment/alignment_position.py::NotAlignedPosition.getScoredPosition',
+            'src/alignment/alignment_position_scorer.py::AlignmentPositionScorer.getScoredPositions', AR + 'create',
+            'src/workflow_coordinator_factory.py::WorkflowCoordinatorFactory.create'], 'other',
+    "Deductive links: a candidate's offset is query position - (reference position - seed) and within maxDistance (__getAlignedPairs), a pair scores sp - dp*|offset| and an unpaired label su (getScoredPosition x2, getScoredPositions element-wise), a segment's score is "
+    "the sum of its members' scores (AlignmentSegment.create; every trim goes through it), builder segments are contiguous runs of the scored list, a row's "
+    "confidence is the sum of its segment scores (AlignmentResultRow.create), and every command-line value reaches the component that uses it "
+    "(WorkflowCoordinatorFactory.create, symbolic execution of all constructors). BOUNDED: "
     "Confidence of every returned row and every candidate is recomputed from the raw maps, each segment's peak position and the parameters passed on the "
     "command line (-sp/-dp/-su/-d swept), labels strictly inside a segment's span are all accounted for, none twice; the Confidence column equals it to 2 decimals.",
     bounded=_lazy('bcheck.c04', 'bounded'), replay=_lazy('bcheck.c04', 'replay'),
     technique='deductive contracts for offset and segment score; bounded recomputation of every confidence from raw maps and command-line parameters',
 )
 PLANS['C05'] = Plan(
-    'C05', ['src/correlation/peaks_selector.py::PeaksSelector.selectPeaks', WCF + '__getBestAlignment'], 'other',
-    "Deductive links: selectPeaks keeps the peaksCount highest-scoring peaks in descending order; __getBestAlignment returns a maximal-confidence candidate. "
-    "BOUNDED: at most one record per query in the main file of every mode and in the pass files of separate/all, the first-pass record carries the maximal "
+    'C05', ['src/correlation/peaks_selector.py::PeaksSelector.selectPeaks', WCF + '__getBestAlignment',
+            'src/alignment/alignment_results.py::AlignmentResults.filterOutSubsequentAlignmentsForSingleQuery',
+            'src/multi_pass_workflow_coordinator.py::_MultiPassWorkflowCoordinator.execute'], 'other',
+    "Deductive links: selectPeaks keeps the peaksCount highest-scoring peaks in descending order; __getBestAlignment returns a maximal-confidence candidate; "
+    "filterOutSubsequentAlignmentsForSingleQuery keeps one input row per query id, of maximal confidence, in ascending id order; the mode logic of "
+    "_MultiPassWorkflowCoordinator.execute returns / writes the stated row lists per mode (ghost log of the writes; best mode: ascending ids, contains every "
+    "joined row and the first-pass row of every other query). BOUNDED: at most one record per query in the main file of every mode and in the pass files of separate/all, the first-pass record carries the maximal "
     "confidence among the captured candidates (at most peaksCount), best mode has exactly one record for every aligned query in ascending id; on generated sets.",
     bounded=_lazy('bcheck.c05', 'bounded'), replay=_lazy('bcheck.c05', 'replay'),
     technique='deductive contracts for seed selection and best-candidate choice; bounded run-time contract on the files of all modes',
@@ -211,8 +222,12 @@ PLANS['C20'] = Plan(
 )
 
 PLANS['C08'] = Plan(
-    'C08', [], 'other',
-    "BOUNDED: the four multi-pass modes of the real program on identical generated inputs (indel-containing and chimeric queries over-weighted, three "
+    'C08', ['src/multi_pass_workflow_coordinator.py::_MultiPassWorkflowCoordinator.execute', AR + 'check_overlap',
+            'src/alignment/alignment_results.py::AlignmentResults.filterOutSubsequentAlignmentsForSingleQuery'], 'other',
+    "Deductive links: _MultiPassWorkflowCoordinator.execute is verified once with a symbolic output mode and a ghost log of the additional-file writes: "
+    "separate returns filter(first pass) and writes filter(second pass) to _1; all returns the joined rows and writes filter(first) to _1, filter(second) to _2; "
+    "joined returns the joined rows and writes the un-joined rows to _1 - the same callee results in every mode, so the file equalities between modes follow by "
+    "congruence; check_overlap is true only for the same strand and reference with a reference gap <= maxDifference. BOUNDED: the four multi-pass modes of the real program on identical generated inputs (indel-containing and chimeric queries over-weighted, three "
     "maxDifference values); all clauses of the statement are evaluated on the XMAP text with an independent parser.",
     bounded=_lazy('bcheck.c08', 'bounded'), replay=_lazy('bcheck.c08', 'replay'),
     technique='bounded differential run-time contract across output modes (deductive part: see functions_under_contract)',
